@@ -30,7 +30,7 @@ ASSUMPTIONS = [
 ]
 BUDGET = {
     "quick": {"shards": 16, "examples": 50, "wall": 110, "steps": 40},
-    "thorough": {"shards": 16, "examples": 350, "wall": 1200, "steps": 60},
+    "thorough": {"shards": 16, "examples": 3500, "wall": 900, "steps": 60},
 }
 
 MASS = {
